@@ -32,7 +32,11 @@ func deadline(t Tier, quick, thorough time.Duration) time.Time {
 	if t.Thorough {
 		return time.Now().Add(thorough)
 	}
-	return time.Now().Add(quick)
+	// The quick figures written at the call sites are what the bound takes on 16 idle cores plus a margin; on a loaded or slower
+	// machine the same bound must still be COMPLETED (a deadline that cuts the exploration short ends with exhaustive:false and
+	// can miss what the completed bound reports), so the cut-off is 2.5 times the idle figure. An idle run is not affected:
+	// exploration ends when the bound is complete.
+	return time.Now().Add(quick * 5 / 2)
 }
 
 // RunGraph explores sys within the list of bounds (iterated in order; the last completed one is
